@@ -119,6 +119,10 @@ const Changelog = `- semver: "1.1.0-1"
 // T0 is the base instant; every fixture mtime lies in 2001..2005.
 var T0 = time.Date(2001, 2, 3, 4, 5, 6, 0, time.UTC)
 
+// FracOf gives the sub-second part of the on-disk mtime of the fixture nodes that have one.
+var FracOf = map[string]time.Duration{"frac": 750 * time.Millisecond, "frac/f75.txt": 750 * time.Millisecond, "frac/f25.txt": 250 * time.Millisecond,
+	"frac/f999.txt": 999999999 * time.Nanosecond, "frac/f5.txt": 500 * time.Millisecond, "frac/sub": 600 * time.Millisecond, "frac/sub/g.txt": 900 * time.Millisecond, "frac/l": 800 * time.Millisecond}
+
 func mt(i int) time.Time { return T0.Add(time.Duration(i) * 1013 * time.Hour) }
 
 // Spec returns the standard tree; big is the size of share/big.bin.
@@ -165,9 +169,18 @@ func Spec(big int) []Node {
 		{Rel: "doc/LICENSE", Kind: "file", Mode: 0o644, Data: text("license", 130)},
 		{Rel: "doc/manual.txt", Kind: "file", Mode: 0o644, Data: text("manual", 140)},
 		{Rel: "changelog.yaml", Kind: "file", Mode: 0o644, Data: []byte(Changelog)},
+		// sources whose on-disk mtimes are not whole seconds (see FracOf)
+		{Rel: "frac", Kind: "dir", Mode: 0o755},
+		{Rel: "frac/f75.txt", Kind: "file", Mode: 0o644, Data: text("f75", 75)},
+		{Rel: "frac/f25.txt", Kind: "file", Mode: 0o644, Data: text("f25", 25)},
+		{Rel: "frac/f999.txt", Kind: "file", Mode: 0o644, Data: text("f999", 99)},
+		{Rel: "frac/f5.txt", Kind: "file", Mode: 0o644, Data: text("f5", 50)},
+		{Rel: "frac/sub", Kind: "dir", Mode: 0o755},
+		{Rel: "frac/sub/g.txt", Kind: "file", Mode: 0o644, Data: text("g", 60)},
+		{Rel: "frac/l", Kind: "symlink", Target: "f75.txt"},
 	}
 	for i := range ns {
-		ns[i].MTime = mt(i + 1)
+		ns[i].MTime = mt(i + 1).Add(FracOf[ns[i].Rel])
 	}
 	return ns
 }
